@@ -493,7 +493,7 @@ pub fn run(a: &Args) -> i32 {
     run.cov("process_exits_without_close", json!(t.exits));
     run.cov("sigkills", json!(t.kills));
     run.cov("commits", json!(t.commits));
-    run.cov("transitions", json!(t.transitions));
+    run.cov("transition_kinds_seen", json!(t.transitions));
     run.assumptions = vec![
         "openers are handles in this process (3 slots) and child processes of the same binary (2 slots) driven over pipes; background flush / compaction is switched off in all of them (manual mode) so that an idle owner does not change the directory by itself".into(),
         "after an owner is dropped without close() its release runs in a background task: the next open is retried for up to 4 s before 'refused without owner' is reported".into(),
